@@ -2019,8 +2019,14 @@ impl<'p> Exec<'p, UWorld> {
         match &step.op {
             Op::SetNew => {
                 if nsets < 4 {
-                    let set = BDDSet::with_env(b, &self.env);
-                    self.ext.insert(new_id, SetSlot { set, model: BTreeSet::new() });
+                    let env = Rc::clone(&self.env);
+                    match catch(|| BDDSet::with_env(b, &env)) {
+                        Caught::Ok(set) => {
+                            self.ext.insert(new_id, SetSlot { set, model: BTreeSet::new() });
+                        }
+                        Caught::Panic(m, l) if c19 => return Err(viol("C19", "S5", &format!("{opname}@{l}"), step_no, format!("{opname} panicked: {m} @ {l}"))),
+                        _ => {}
+                    }
                 }
             }
             Op::SetFromElement(e) => {
